@@ -100,3 +100,70 @@ def from_json_profile(jp):
 
 def flat(order):
     return [c[0] for c in order]
+
+
+def ordinal_case(rng, m=None, n=None, kind=None, max_mult=4, style=None, tie_p=0.4):
+    """A well-formed ordinal instance as a JSON-able dict {type, alts, profile}."""
+    m = m or rng.randint(2, 6)
+    n = n or rng.randint(1, 6)
+    kind = kind or rng.choice(["soc", "soi", "toc", "toi"])
+    alts = alt_ids(rng, m, style)
+    alts_store = perm(rng, alts) if rng.random() < 0.3 else alts
+    orders, seen = [], set()
+    tries = 0
+    while len(orders) < n and tries < 40 * n + 40:
+        tries += 1
+        if kind in ("soc", "soi"):
+            l = perm(rng, alts)
+            if kind == "soi" and rng.random() < 0.7 and m > 1:
+                l = l[: rng.randint(1, m)]
+            o = tuple((a,) for a in l)
+        else:
+            o = weak_order(rng, alts, complete=(kind == "toc") or rng.random() < 0.3, tie_p=tie_p)
+        if o in seen:
+            continue
+        seen.add(o)
+        orders.append(o)
+    prof = [(o, rng.randint(1, max_mult)) for o in orders]
+    return {"type": infer_type(orders, m), "alts": alts_store, "profile": to_json_profile(prof)}
+
+
+def inst_of(case, data_type=None):
+    return make_ordinal(from_json_profile(case["profile"]), alts=case["alts"],
+                        data_type=data_type or case["type"])
+
+
+def model_inst(case, **extra):
+    d = {"type": case["type"], "alts": case["alts"], "profile": case["profile"]}
+    d.update(extra)
+    return d
+
+
+def shrink_profile_case(case):
+    """generic shrinking of {alts, profile}: drop an order, lower a multiplicity, drop an alternative"""
+    prof = case["profile"]
+    for i in range(len(prof)):
+        if len(prof) > 1:
+            yield dict(case, profile=prof[:i] + prof[i + 1:])
+    for i in range(len(prof)):
+        if prof[i][1] > 1:
+            p2 = [list(x) for x in prof]
+            p2[i][1] = p2[i][1] // 2 if p2[i][1] > 3 else p2[i][1] - 1
+            yield dict(case, profile=p2)
+    if len(case["alts"]) > 2:
+        for x in case["alts"]:
+            p2, ok, seen = [], True, set()
+            for o, mlt in prof:
+                o2 = [[a for a in c if a != x] for c in o]
+                o2 = [c for c in o2 if c]
+                key = repr(o2)
+                if not o2 or key in seen:
+                    ok = False
+                    break
+                seen.add(key)
+                p2.append([o2, mlt])
+            if ok:
+                c2 = dict(case, alts=[a for a in case["alts"] if a != x], profile=p2)
+                if "type" in case:
+                    c2["type"] = infer_type([tuple(tuple(c) for c in o) for o, _ in p2], len(c2["alts"]))
+                yield c2
